@@ -83,7 +83,7 @@ func ruleC10R1(c *Ctx) {
 				t = valT(arg)
 			}
 			max := int64(1)<<uint(bits) - 1
-			if reason, ok := c10R1Reviewed[anchorName(fn)+"|"+site.Common().StaticCallee().Name()+"|"+canonOf(arg)]; ok {
+			if reason, ok := lookupReviewed(c10R1Reviewed, anchorName(fn)+"|"+site.Common().StaticCallee().Name()+"|"+canonOf(arg)); ok {
 				if pr.prove(fn, site, zeroT(), t, 0, nil) {
 					c.assumed("C10.R1", fn, fmt.Sprintf("%s with a length that fits %d bits", site.Common().StaticCallee().Name()+"(…,"+canonOf(arg)+")", bits), site.Pos(), "reviewed: "+reason)
 					continue
